@@ -336,6 +336,22 @@ def check_te(res, facts):
             if c and None not in c:
                 ok = c[0].equals(-V("p.x")) and c[1].equals(V("p.y")) and c[3].equals(V("p.z")) and (c[2] * c[3]).equals(c[0] * c[1])
         (rule.ok if ok else rule.bad)("TE::neg", "-(X, Y, T, Z) = (-X, Y, -T, Z)", neg[0].loc)
+    # an override of AdditiveGroup::neg_in_place (the provided method goes through Neg): every cached coordinate has to follow
+    for nip in [f for f in facts.fns(unit="ws", crate="ark_ec") if f.kind != "Closure" and f.name == "neg_in_place" and f.self_head == TEP]:
+        ex, paths = run_paths(facts, nip, [ref(te_proj("p"))], models(1))
+        verdict = None
+        for p in paths:
+            c = coords(ex, ex.deref(p.args.cell(1).v), 4) if p.args is not None else None
+            if c and None not in c:
+                verdict = c[0].equals(-V("p.x")) and c[1].equals(V("p.y")) and c[3].equals(V("p.z")) and c[2].equals(-V("p.t"))
+                if not verdict:
+                    break
+        if verdict is None:
+            rule.noverdict("TE::neg_in_place", "override not evaluable", nip.loc)
+        elif verdict:
+            rule.ok("TE::neg_in_place", "(X, Y, T, Z) becomes (-X, Y, -T, Z)", nip.loc)
+        else:
+            rule.bad("TE::neg_in_place", "the in-place negation leaves (%s, %s, %s, %s): expected (-X, Y, -T, Z) -- the cached product T = XY/Z has to change sign with X, later additions read it" % tuple(str(x)[:30] for x in c), nip.loc)
 
 
 def eq_conds(p, ret):
